@@ -200,6 +200,14 @@ func (c *twistPoint) Double(a *twistPoint, pool *bnPool) {
 }
 
 func (c *twistPoint) Mul(a *twistPoint, scalar *big.Int, pool *bnPool) *twistPoint {
+	if scalar.Sign() < 0 {
+		// k*a = |k|*(-a); big.Int.Bit works on the two's complement of negative values.
+		neg := newTwistPoint(pool)
+		neg.Negative(a, pool)
+		c.Mul(neg, new(big.Int).Neg(scalar), pool)
+		neg.Put(pool)
+		return c
+	}
 	sum := newTwistPoint(pool)
 	sum.SetInfinity()
 	t := newTwistPoint(pool)
